@@ -2468,6 +2468,7 @@ bool SoPlexBase<R>::_boostPrecision()
 
       if(intParam(SoPlexBase<R>::MULTIPRECISION_LIMIT) >= nbDigitsSecondBoost)
       {
+         SPX_VERIF_POINT("precision:boost2");
          BP::default_precision((int)nbDigitsSecondBoost);
       }
       else
@@ -2481,11 +2482,13 @@ bool SoPlexBase<R>::_boostPrecision()
    else if(_statistics->precBoosts >= 2)
    {
       // general case: increase the number of decimal digits by 3/2,
+      SPX_VERIF_POINT("precision:read-for-boost");
       int newNbDigits = (int)floor(BP::default_precision() * realParam(
                                       SoPlexBase<R>::PRECISION_BOOSTING_FACTOR));
 
       if(intParam(SoPlexBase<R>::MULTIPRECISION_LIMIT) >= newNbDigits)
       {
+         SPX_VERIF_POINT("precision:boost");
          BP::default_precision(newNbDigits);
       }
       else
@@ -2512,6 +2515,7 @@ void SoPlexBase<R>::_resetBoostedPrecision()
 {
    _statistics->precBoosts = 0;
 #ifdef SOPLEX_WITH_MPFR
+   SPX_VERIF_POINT("precision:reset");
    BP::default_precision(50);
 #endif
 }
@@ -2765,6 +2769,7 @@ void SoPlexBase<R>::_solveRealForRationalBoostedStable(
    // start rational solving timing
    _statistics->rationalTime->start();
 
+   SPX_VERIF_POINT("precision:read-tolerances");
    SPX_MSG_INFO1(spxout, spxout << "Current precision = 1e-" << BP::default_precision() << ", ");
 
    primalFeasible = false;
@@ -3028,6 +3033,7 @@ void SoPlexBase<R>::_performOptIRStableBoosted(
    // start rational solving timing
    _statistics->rationalTime->start();
 
+   SPX_VERIF_POINT("precision:read-tolerances");
    SPX_MSG_INFO1(spxout, spxout << "Current precision = 1e-" << BP::default_precision() << ", ");
 
    typename SPxSolverBase<BP>::Status boostedResult = SPxSolverBase<BP>::UNKNOWN;
@@ -5835,6 +5841,7 @@ void SoPlexBase<R>::_solveRealForRationalBoosted(
          // do not remove bounds of boxed variables or sides of ranged rows if bound flipping is used
          bool keepbounds = intParam(SoPlexBase<R>::RATIOTESTER) == SoPlexBase<R>::RATIOTESTER_BOUNDFLIPPING;
          Real remainingTime = _boostedSolver.getMaxTime() - _boostedSolver.time();
+         SPX_VERIF_POINT("precision:read-tol");
          BP tol = pow(10, -(int)(BP::default_precision() * _tolPrecisionRatio));
          simplificationStatus = _boostedSimplifier->simplify(_boostedSolver, remainingTime, keepbounds,
                                 _boostedSolver.random.getSeed());
